@@ -11,6 +11,8 @@
 (***************************************************************************)
 EXTENDS TraceBase, F64
 
+CONSTANT JudgeEvaluator    \* FALSE: only the direct-evaluation leg is judged (C02); the evaluator legs belong to C03/C16
+
 VARIABLES ends, off, last, sel, arg
 
 E == INSTANCE Evaluator WITH NaNGuard <- TRUE
@@ -27,7 +29,7 @@ TraceQuery ==
        /\ E!Query(e.x)
        \* contract: whatever the history, the answer is the piece Select names, given x verbatim
        /\ Judge(~e.panic, "panic")
-       /\ Judge(IsNaN(e.x) \/ e.panic \/
+       /\ Judge(~JudgeEvaluator \/ IsNaN(e.x) \/ e.panic \/
                 (e.seg = E!P!SelectScan(ends, e.x) /\ e.arg = e.x /\ e.valok), "evaluator-vs-Select")
        /\ Judge(e.panic \/ e.dseg = E!P!SelectScan(ends, e.x), "direct-vs-Select")
        \* shape: the hidden cursor moves as the model says
